@@ -21,6 +21,7 @@ class Job:
         self.kf = tuple(kf)          # ids of known findings this job may be subject to (excluded by -DKF_<id> when listed open)
         self.kfonly = kfonly         # id of the known finding this job reproduces (expected to FAIL)
         self.unwindset = tuple(unwindset); self.backend = tuple(backend)
+        self.only_labels = None      # C18: only failures whose label contains one of these substrings count
         self.members = None          # batch job: list of member Jobs (same harness/entry); params = [K, n1, p1.., n2, p2..]
         self.params = tuple(params)  # concrete shape parameters, passed to cbmc as -DVERIF_PARAMS=v0,v1,...
         self.result = None
@@ -102,6 +103,8 @@ class Check:
         unw = [d for d in labels if 'unwinding assertion' in d or 'recursion unwinding' in d]
         wit = [d for d in labels if d == 'WITNESS']
         real = [(n, d) for (n, d) in failed if d not in unw and d != 'WITNESS']
+        if job.only_labels is not None:
+            real = [(n, d) for (n, d) in real if any(k in d for k in job.only_labels)]
         if real:
             return 'fail', real
         if unw:
